@@ -13,8 +13,12 @@ def sim():
 
 def start_server():
     from pyworkers.remote_server import spawn_server
-    srv = spawn_server(('127.0.0.1', 0))
     s = cur_sim()
+    s.proc_tag = 'server'
+    try:
+        srv = spawn_server(('127.0.0.1', 0))
+    finally:
+        s.proc_tag = None
     s.server_pids = tuple(getattr(s, 'server_pids', ())) + (srv.pid,)
     return srv
 
